@@ -29,6 +29,10 @@ claim("C10", "crash-discipline rules over the resolved program: deferred-recover
       "For every query, option set and input: New and Exec defer a recover-to-error handler as their first action; no recover handler can re-panic; every go statement's function recovers before anything that can panic and defers WaitGroup.Done (Add precedes go); explicit panics exist only under a synchronous caller's recover; the CTE thunk replaces its own entry before evaluating its body on every path; the star projection cannot copy the <- back-reference; every Lock is released on all paths with nothing panicking in between. Does not decide termination of loops in general.",
       NOTE, "DESIGN.md 2/C10")
 
+claim("C13", "lockset discipline: must-hold mutex dataflow at every access of shared globals and Options.vars, goroutine captured-variable synchronisation (Wait dominance, stores under a lock in loops), escape of per-query state into globals and writes into shared document storage via the ownership analysis (go/ssa + VTA)",
+      "For all schedules, as a discipline any race-free implementation must have: every access of a package-level map/slice that is written on the query path is made with the package mutex held on every path (others are written only off the query path); Options.vars reads hold varsMut, writes hold its write lock; a goroutine's stores to captured variables are read by the spawner only after WaitGroup.Wait with a deferred Done, and are under a lock where instances overlap; no Query/Options state can reach a global; no write site can target document storage (not even a restored marker). Schedules are not enumerated.",
+      NOTE, "DESIGN.md 2/C13")
+
 _pending = "rule set for this property is not implemented yet in this round (see DESIGN.md section 2 for the planned structural rules)"
 for p in ["C01","C02","C03","C04","C05","C06","C07","C09","C10","C11","C12","C13","C14","C15","C16","C17","C18","C19","C20"]:
     if p not in CLAIMED:
